@@ -1,7 +1,158 @@
 /-
-  C17 — property theorems (see DESIGN.md §5 C17).
+  C17 — the changelog parser returns every entry faithfully, or an error; never a silently
+  shortened list.  On arbitrary input: a clean end is reported only when nothing but empty
+  lines is left, every returned entry consumed a complete block, success accounts for every
+  line, the parser terminates.  On rendered changelogs: exactly the entries are returned.
+  Property theorems only; lemmas live in GoDebian/Lemmas/Changelog*.lean.
 -/
 import GoDebian.Model.Changelog
+import GoDebian.Spec.Changelog
+import GoDebian.Lemmas.ChangelogParse
+import GoDebian.Lemmas.ChangelogRender
 
 namespace GoDebian.Props.C17
+open GoDebian GoDebian.Changelog
+
+/-! ### arbitrary input -/
+
+/-- A clean end is reported only when nothing but empty lines is left. -/
+theorem C17_eof_iff (ls : List Bytes) (dateOK : Bytes → Bool) :
+    parseOne ls dateOK = .eof ↔ ∀ l ∈ ls, l = [10] :=
+  Lemmas.Changelog.parseOne_eof_iff ls dateOK
+
+/-- Both directions occur: empty lines only are a clean end; a line holding a blank, a
+    carriage return or any text is not (it is an error). -/
+example :
+    (∀ l ∈ [[10], [10]], l = [10]) ∧ ¬ (∀ l ∈ [[10], [32, 10]], l = [10]) ∧
+    (match parseOne [[10], [32, 10]] (fun _ => true) with | .bad => true | _ => false) = true ∧
+    (match parseOne [[13, 10]] (fun _ => true) with | .bad => true | _ => false) = true := by
+  decide +kernel
+
+/-- Every returned entry consumed a complete block: empty lines, a header line that does not
+    start with a blank, body lines, and a trailer line starting with " -- "; its change text
+    is exactly the body lines; its date text was accepted. -/
+theorem C17_entry_block (ls rest : List Bytes) (dateOK : Bytes → Bool) (e : Entry)
+    (h : parseOne ls dateOK = .entry e rest) :
+    ∃ blanks header body trailer, ls = blanks ++ [header] ++ body ++ [trailer] ++ rest ∧
+      (∀ l ∈ blanks, l = [10]) ∧ header ≠ [10] ∧ Str.hasPrefix header [32] = false ∧
+      Str.hasPrefix trailer [32, 45, 45, 32] = true ∧
+      (∀ l ∈ body, Str.hasPrefix l [32, 45, 45, 32] = false) ∧ e.changelog = body.flatten ∧
+      dateOK e.whenText = true :=
+  Lemmas.Changelog.parseOne_block h
+
+/-- The hypothesis is satisfiable outside the image of `render`: no options, no body, no
+    date; the lines after the trailer are handed back untouched. -/
+example :
+    (match parseOne (lines (Bytes.ofString "\nx (2) y z\n -- w\nnext\n")) (fun _ => true) with
+      | .entry e rest => e.source == [120] && e.changelog == [] && e.changedBy == [119] &&
+          e.whenText == [] && rest == [Bytes.ofString "next\n"]
+      | _ => false) = true := by
+  decide +kernel
+
+/-- Hence: if parsing succeeds, the whole input is accounted for.  The lines of the input
+    are a sequence of blocks followed by empty lines only; there are as many blocks as
+    entries; `parseOne`, started at the i-th block, returns the i-th entry and leaves exactly
+    the lines after that block; the block is complete (empty lines, header, body, trailer)
+    and the entry's change text is its body. -/
+theorem C17_no_silent_loss (b : Bytes) (dateOK : Bytes → Bool) (es : List Entry)
+    (h : parse b dateOK = .ok es) :
+    ∃ blocks : List (List Bytes), ∃ tail : List Bytes,
+      lines b = blocks.flatten ++ tail ∧ (∀ l ∈ tail, l = [10]) ∧ blocks.length = es.length ∧
+      ∀ i (hi : i < blocks.length) (hi' : i < es.length),
+        parseOne (blocks[i] ++ ((blocks.drop (i + 1)).flatten ++ tail)) dateOK
+          = .entry es[i] ((blocks.drop (i + 1)).flatten ++ tail) ∧
+        ∃ blanks header body trailer, blocks[i] = blanks ++ [header] ++ body ++ [trailer] ∧
+          (∀ l ∈ blanks, l = [10]) ∧ header ≠ [10] ∧ Str.hasPrefix header [32] = false ∧
+          Str.hasPrefix trailer [32, 45, 45, 32] = true ∧
+          (∀ l ∈ body, Str.hasPrefix l [32, 45, 45, 32] = false) ∧
+          es[i].changelog = body.flatten ∧ dateOK es[i].whenText = true := by
+  obtain ⟨blocks, tail, h1, h2⟩ := Lemmas.Changelog.parse_ok h
+  refine ⟨blocks, tail, h1, Lemmas.Changelog.consumes_tail h2,
+    Lemmas.Changelog.consumes_length h2, fun i hi hi' => ?_⟩
+  have h3 := (Lemmas.Changelog.consumes_get h2 i hi hi').2
+  exact ⟨h3, Lemmas.Changelog.parseOne_block_exact h3⟩
+
+/-- A successful parse of input outside the image of `render` (leading empty line, an entry
+    without options and date directly behind the previous one's separator). -/
+example :
+    (((parse (Bytes.ofString ("\nhello (1.0-1) unstable; urgency=low\n\n  * change\n\n" ++
+        " -- A B <a@b>  Mon, 02 Jan 2006 15:04:05 -0700\n\nx (2) y z\n -- w\n\n"))
+        (fun _ => true)).toOption.map
+      (·.map (fun e => (e.source, e.version, e.target, e.arguments, e.changelog, e.changedBy,
+        e.whenText)))) ==
+    some [(Bytes.ofString "hello", ⟨0, Bytes.ofString "1.0", [49]⟩, Bytes.ofString "unstable",
+        [(Bytes.ofString "urgency", Bytes.ofString "low")], Bytes.ofString "\n  * change\n\n",
+        Bytes.ofString "A B <a@b>", Bytes.ofString "Mon, 02 Jan 2006 15:04:05 -0700"),
+      ([120], ⟨0, [50], []⟩, Bytes.ofString "y z", [([], [])], [], [119], [])]) = true := by
+  decide +kernel
+
+/-- Incomplete input is an error, not a shorter list: a last entry cut off before its
+    trailer, text behind the last entry, a date the time library rejects. -/
+example :
+    (parse (Bytes.ofString "a (1) u; k=v\n -- w  d\nb (2) u; k=v\n  * x\n") (fun _ => true)).toOption.isNone
+      = true ∧
+    (parse (Bytes.ofString "a (1) u; k=v\n -- w  d\n trailing\n") (fun _ => true)).toOption.isNone
+      = true ∧
+    (parse (Bytes.ofString "a (1) u; k=v\n -- w  d\n") (fun t => t != [100])).toOption.isNone
+      = true := by
+  decide +kernel
+
+/-- The parser terminates: fuel `lines.length + 1` is never exhausted, and no step can
+    panic.  The only outcomes are a list of entries or an error value. -/
+theorem C17_total (b : Bytes) (dateOK : Bytes → Bool) :
+    parse b dateOK ≠ .error .fuel ∧ parse b dateOK ≠ .error .panic :=
+  Lemmas.Changelog.parse_total b dateOK
+
+/-- Each `parseOne` step that returns an entry returns strictly fewer lines than it got. -/
+theorem C17_entry_consumes (ls rest : List Bytes) (dateOK : Bytes → Bool) (e : Entry)
+    (h : parseOne ls dateOK = .entry e rest) : rest.length < ls.length :=
+  Lemmas.Changelog.parseOne_consumes h
+
+/-! ### rendered changelogs -/
+
+open GoDebian.Spec.Changelog
+
+/-- Main theorem, entries compared directly: every list of well-formed entries whose dates
+    the time library accepts, rendered with 1–3 empty lines between entries, 0–2 at the end,
+    with or without the final newline, is parsed to exactly these entries, in order. -/
+theorem C17_parse_render_entries (es : List SEntry) (cs : Spec.Deb822.Choices) (fin : Bool)
+    (dateOK : Bytes → Bool) (hwf : es.all wfEntry = true) (hd : ∀ e ∈ es, dateOK e.date = true) :
+    parse (render es cs fin) dateOK = .ok (es.map view) :=
+  Lemmas.Changelog.parse_render hwf hd cs fin
+
+/-- The same, field by field. -/
+theorem C17_parse_render (es : List SEntry) (cs : Spec.Deb822.Choices) (fin : Bool)
+    (dateOK : Bytes → Bool) (hwf : es.all wfEntry = true) (hd : ∀ e ∈ es, dateOK e.date = true)
+    (_hne : es ≠ [] ∨ fin = true) :
+    (parse (render es cs fin) dateOK).map (·.map (fun e =>
+        (e.source, e.version, e.target, e.arguments, e.changelog, e.changedBy, e.whenText)))
+      = .ok (es.map (fun s => let v := view s;
+        (v.source, v.version, v.target, v.arguments, v.changelog, v.changedBy, v.whenText))) := by
+  rw [C17_parse_render_entries es cs fin dateOK hwf hd]
+  simp [Except.map, List.map_map, Function.comp_def]
+
+/-- Two well-formed entries exercising the corners: epoch and revision, two distributions,
+    an option holding ";" "(" ")", a repeated option key (the later value wins), an empty
+    body, body lines " --x" and the empty line, a one-byte maintainer "-", a date text that
+    starts with "--" and holds a double blank; three empty lines between the entries, none at
+    the end, final newline missing. -/
+example :
+    let B := Bytes.ofString
+    let e1 : SEntry := ⟨B "hello", ⟨1, B "2.30", B "1"⟩, [B "unstable", B "x"],
+      [(B "urgency", B "low"), (B "a;b", B "(c)")], [B "  * foo", [], B " --x"], B "A B <a@b>",
+      B "Mon, 02 Jan 2006 15:04:05 -0700"⟩
+    let e2 : SEntry := ⟨B "h", ⟨0, B "2-3", []⟩, [B "u"], [(B "k", B "v"), (B "k", B "w")], [],
+      B "-", B "--  x"⟩
+    [e1, e2].all wfEntry = true ∧
+    render [e1, e2] [2, 0] false =
+      B ("hello (1:2.30-1) unstable x; urgency=low, a;b=(c)\n\n  * foo\n\n --x\n\n" ++
+        " -- A B <a@b>  Mon, 02 Jan 2006 15:04:05 -0700\n\n\n\nh (2-3-) u; k=v, k=w\n\n\n -- -  --  x") ∧
+    (view e2).arguments = [(B "k", B "w")] ∧ (view e2).changelog = B "\n\n" ∧
+    (view e1).target = B "unstable x" ∧ (view e1).changelog = B "\n  * foo\n\n --x\n\n" := by
+  decide +kernel
+
+/-- The empty changelog is well-formed; its renderings are runs of empty lines. -/
+example : render [] [2] true = [10, 10] ∧ render [] [2] false = [10] ∧ render [] [] false = [] := by
+  decide +kernel
+
 end GoDebian.Props.C17
